@@ -192,4 +192,35 @@ mod verif_bounded_mdk {
         w.deliver(label, "alice removes bob", &c);
         w.alice_msg(label, "after the removal");
     }
+
+    // C03 / C05 / C07: a member joins and leaves by proposal (auto-committed by the admin, proposal re-delivered), then both
+    // bystanders are removed and are fed a later message and the removal commit again.
+    #[test]
+    fn eviction_and_leave_history() {
+        let label = "mdk_backends_bounded.eviction_and_leave_history";
+        let mut w = setup();
+        w.alice_msg(label, "m1");
+        // a third member carol joins, then leaves by proposal; alice auto-commits
+        let ck = Keys::generate(); let c = create_test_mdk();
+        let add = w.a.add_members(&w.gid, &[create_key_package_event(&c, &ck)]).unwrap();
+        w.a.merge_pending_commit(&w.gid).unwrap(); w.b.process_message(&add.evolution_event).unwrap();
+        w.deliver(label, "alice adds carol", &add.evolution_event);
+        let wl = c.process_welcome(&nostr::EventId::all_zeros(), &add.welcome_rumors.as_ref().unwrap()[0]).unwrap(); c.accept_welcome(&wl).unwrap();
+        let p = c.leave_group(&w.gid).unwrap().evolution_event;
+        w.deliver(label, "carol's leave proposal", &p);
+        let commit = match w.a.process_message(&p).unwrap() { crate::messages::MessageProcessingResult::Proposal(u) => u.evolution_event, o => panic!("{o:?}") };
+        w.a.merge_pending_commit(&w.gid).unwrap(); w.b.process_message(&p).ok(); w.b.process_message(&commit).unwrap();
+        w.deliver(label, "alice's auto-commit of the leave", &commit);
+        w.deliver(label, "re-delivery of the leave proposal", &p);
+        w.alice_msg(label, "after carol left");
+        // bob (admin) removes BOTH bystanders; afterwards they are fed more events
+        let sk: Vec<nostr::PublicKey> = w.mem.get_members(&w.gid).unwrap().into_iter().filter(|p| *p != w.ak.public_key() && *p != w.bk.public_key()).collect();
+        let rm = w.b.remove_members(&w.gid, &sk).unwrap().evolution_event;
+        w.b.merge_pending_commit(&w.gid).unwrap(); w.a.process_message(&rm).unwrap();
+        w.deliver(label, "bob removes both bystanders", &rm);
+        let later = w.a.create_message(&w.gid, create_test_rumor(&w.ak, "after the eviction")).unwrap();
+        w.deliver(label, "a message sent after their eviction", &later);
+        w.deliver(label, "re-delivery of the removal commit", &rm);
+        if fp(&w.sql, &w.gid).state.as_deref() != Some("Inactive") { panic!("BOUNDED-COUNTEREXAMPLE {label}: scenario [history: {}] the evicted SQLite-backed client does not show the group as Inactive", w.log.join(" ; ")); }
+    }
 }
